@@ -1,51 +1,57 @@
 /-
 Model of (*openapi3.T).InternalizeRefs (openapi3/internalize_refs.go): isExternalRef, the nine add*ToSpec
-routines (one generic `addToSpec`; the callback variant overwrites without an existence test, as the code does),
-the deref* descent with its parent-is-external flag, the two visited sets of openapi3/visited.go, the
-"always dereference the top level" resets and the inlining of path-item references.
+routines (one generic `addCore`; the callback variant overwrites without an existence test, as the code does),
+the deref* descent with its parent-is-external flag, the THREE visited sets of openapi3/visited.go (schemas,
+headers, path items), the nil guards of derefHeaders / derefContent / derefPaths, the "always dereference the top
+level" resets and the inlining of path-item references.
 
 Input: the abstraction of a LOADED document (`Heap`): ref cells (the *XRef structs: collection, $ref text,
 RefPath(), resolved value id or -1 for nil), values (the pointed-to objects, with their child cells in the order
-the code visits them), path items, the root components per collection in sorted order, the paths in sorted order.
-Pointer sharing in the Go object graph is sharing of ids here.
+the code visits them; `pex` = the Examples of a Parameter / Header, which the loader resolves and InternalizeRefs
+never visits; `dmap` = the discriminator mapping texts of a schema paired with the oneOf alternative they select,
+which InternalizeRefs never rewrites), path items, the root components per collection in sorted order, the paths in sorted order.
+Pointer sharing in the Go object graph is sharing of ids here. Texts are character lists (`RefName.Str`).
 
-Outcomes: `done` (final $ref text of every cell, final components), `panic` (nil dereference in derefHeaders on an
-unresolved header reference; the resolver's panic on a reference without RefPath), `diverge` (no visited set stops
-the recursion through callbacks: fuel runs out).
+Outcomes: `done` (final $ref text of every cell, final components), `panic` (the resolver's panic on a reference
+without RefPath), `diverge` (fuel ran out; not observed since derefPaths has a visited set).
+
+The descent is written from five primitives — `addToSpec` (pure core `addCore`), `clearRef`, `enterPI`,
+`isVisitedSchema`/`isVisitedHeader`, `tick` — so that `KinModel/Lemmas/C16Descent.lean` can show that every run is a
+sequence of primitive steps and the document-level theorems of `Props/C16.lean` are invariants of those steps.
 
 The spec side (`specB`) is the property read on the final state: every cell's $ref is empty or starts with
 `#/components/`, resolves inside the final components (following chains) to content of the class it had when
-loaded, and no component has an empty name.
+loaded, every path item is inlined, and no component has an empty name.
 -/
 import KinModel.RefName
 namespace KinModel.Internalize
 open KinModel.RefName
 
 structure Cell where
-  k : String
-  ref : String
-  refPath : Option (String × String)
+  k : Str
+  ref : Str
+  refPath : Option (Str × Str)
   val : Int
-  deriving Repr, Inhabited
+  deriving Repr, Inhabited, DecidableEq
 
 structure MT where
   schema : Int
   ex : List Nat
   enc : List (List Nat)
-  deriving Repr, Inhabited
+  deriving Repr, Inhabited, DecidableEq
 
 structure Op where
   rb : Int
   cbs : List Nat
   resps : List Nat
   params : List Nat
-  deriving Repr, Inhabited
+  deriving Repr, Inhabited, DecidableEq
 
 structure PI where
-  ref : String
+  ref : Str
   params : List Nat
   ops : List Op
-  deriving Repr, Inhabited
+  deriving Repr, Inhabited, DecidableEq
 
 structure Val where
   t : String
@@ -56,18 +62,20 @@ structure Val where
   headers : List Nat
   links : List Nat
   items : List Nat
-  deriving Repr, Inhabited
+  pex : List Nat
+  dmap : List (Str × Nat)   -- discriminator mapping entries (text, oneOf child cell whose $ref equalled the text when loaded)
+  deriving Repr, Inhabited, DecidableEq
 
 structure Heap where
-  root : Option String
+  root : Option Str
   hasComp : Bool
   validBefore : Bool      -- verdict of (*T).Validate on the loaded document: an input of the model
   cells : Array Cell
   vals : Array Val
   pis : Array PI
-  comps : List (String × List (String × Nat))   -- collection → (name, cell) sorted by name
+  comps : List (Str × Str × Nat)   -- (collection, name, cell); within a collection sorted by name
   paths : List Nat
-  deriving Repr, Inhabited
+  deriving Repr, Inhabited, DecidableEq
 
 /-- a component entry of the evolving document: an original cell, or a fresh `&XRef{Value: v}` made by add*ToSpec -/
 inductive Comp
@@ -75,18 +83,36 @@ inductive Comp
   | fresh (v : Int)
   deriving Repr, DecidableEq, Inhabited
 
+/-- what one call of add<Kind>ToSpec did to cell `c` (`pext` = the parent-is-external flag it was called with) -/
 inductive Ev
-  | added (c : Nat) (k name : String)       -- new component created
-  | reused (c : Nat) (k name : String) (same : Bool)  -- a component of that name existed (same = same content class)
+  | added (c : Nat) (name : Str) (pext : Bool)                 -- new component created
+  | reused (c : Nat) (name : Str) (same : Bool) (pext : Bool)  -- a component of that name existed (same = same content class)
   | notExternal (c : Nat) (pext : Bool)
-  deriving Repr
+  deriving Repr, DecidableEq
+
+def Ev.cell : Ev → Nat
+  | .added c _ _ => c
+  | .reused c _ _ _ => c
+  | .notExternal c _ => c
+
+/-- the name the event handed out -/
+def Ev.name? : Ev → Option Str
+  | .added _ n _ => some n
+  | .reused _ n _ _ => some n
+  | .notExternal _ _ => none
+
+def Ev.pext : Ev → Bool
+  | .added _ _ p => p
+  | .reused _ _ _ p => p
+  | .notExternal _ p => p
 
 structure St where
-  refs : Array String
-  pirefs : Array String
-  comps : List (String × List (String × Comp))
+  refs : Array Str
+  pirefs : Array Str
+  comps : List (Str × Str × Comp)      -- (collection, name, entry) in insertion order
   visS : List Int
   visH : List Int
+  visP : List Nat
   steps : Nat
   log : List Ev
   ambiguous : Bool
@@ -99,26 +125,36 @@ inductive Err | panic (site : String) | fuel
 
 abbrev M := StateT St (Except Err)
 
-def isExternalRef (ref : String) (parentIsExternal : Bool) : Bool :=
-  ref != "" && (!ref.startsWith "#/components/" || parentIsExternal)
+def compPre : Str := "#/components/".toList
+def callbacksK : Str := "callbacks".toList
 
-def wholeDocS (ref : String) : Bool := ref != "" && !ref.contains '#'
+def hasCompPrefix (r : Str) : Bool := isPrefix compPre r
 
-def flag (f : String) : M Unit := modify fun s => if s.flags.contains f then s else { s with flags := f :: s.flags }
+/-- isExternalRef -/
+def isExternalRef (ref : Str) (parentIsExternal : Bool) : Bool :=
+  !ref.isEmpty && (!hasCompPrefix ref || parentIsExternal)
 
-def tick : M Unit := do
-  let s ← get
-  if s.steps == 0 then throw .fuel
-  set { s with steps := s.steps - 1 }
+/-- `"#/components/<k>/" + name` -/
+def mkRef (k name : Str) : Str := compPre ++ (k ++ '/' :: name)
 
-def compsOf (s : St) (k : String) : List (String × Comp) :=
-  match s.comps.find? (·.1 == k) with | some (_, l) => l | none => []
+def addFlags (fs new : List String) : List String :=
+  new.foldl (fun acc f => if acc.contains f then acc else f :: acc) fs
 
-def setComp (s : St) (k name : String) (c : Comp) : St :=
-  let l := compsOf s k
-  let l' := if l.any (·.1 == name) then l.map (fun e => if e.1 == name then (name, c) else e) else l ++ [(name, c)]
-  let cs := if s.comps.any (·.1 == k) then s.comps.map (fun e => if e.1 == k then (k, l') else e) else s.comps ++ [(k, l')]
-  { s with comps := cs, hasComp := true }
+def flag (f : String) : M Unit := fun s => .ok ((), { s with flags := addFlags s.flags [f] })
+
+def tick : M Unit := fun s =>
+  if s.steps == 0 then .error .fuel else .ok ((), { s with steps := s.steps - 1 })
+
+def keyIs (k name : Str) (e : Str × Str × Comp) : Bool := e.1 == k && e.2.1 == name
+
+def compsOf (s : St) (k : Str) : List (Str × Comp) := (s.comps.filter (·.1 == k)).map (·.2)
+
+def lookup (s : St) (k name : Str) : Option Comp := (s.comps.find? (keyIs k name)).map (·.2.2)
+
+/-- `doc.Components.<K>[name] = entry`: replace the entry of that name, or append a new one (names are unique per collection) -/
+def setCompL : List (Str × Str × Comp) → Str → Str → Comp → List (Str × Str × Comp)
+  | [], k, name, c => [(k, name, c)]
+  | e :: l, k, name, c => if keyIs k name e then (k, name, c) :: l else e :: setCompL l k name c
 
 variable (h : Heap)
 
@@ -127,77 +163,81 @@ def valOf (c : Nat) : Int := (cellOf h c).val
 def getVal (v : Int) : Val := h.vals[v.toNat]!
 
 /-- the view of the evolving root document the name resolver reads -/
-def rootInfo (s : St) (k : String) : RootInfo :=
-  { url := h.root.map String.toList, hasComponents := s.hasComp,
+def rootInfo (s : St) (k : Str) : RootInfo :=
+  { url := h.root, hasComponents := s.hasComp,
     comps := (compsOf s k).map fun (n, c) =>
       match c with
-      | .cell i => (n.toList, s.refs[i]!.toList, (cellOf h i).refPath.map fun (a, b) => (a.toList, b.toList))
-      | .fresh _ => (n.toList, [], none) }
+      | .cell i => (n, s.refs[i]!, (cellOf h i).refPath)
+      | .fresh _ => (n, [], none) }
 
-def compVal (_s : St) (c : Comp) : Int := match c with | .cell i => valOf h i | .fresh v => v
+def compVal (c : Comp) : Int := match c with | .cell i => valOf h i | .fresh v => v
 def ccOf (v : Int) : String := if v < 0 then "nil" else (getVal h v).cc
 
-/-- add<Kind>ToSpec. Returns isExternal. -/
-def addToSpec (c : Nat) (pext : Bool) : M Bool := do
-  let s ← get
+/-- the diagnostic branch names of one add<Kind>ToSpec call (no influence on the outcome) -/
+def addBranches (s : St) (cell : Cell) (cur nm : Str) (amb pext : Bool) (info : RefInfo) : List String :=
+  (if pext && hasCompPrefix cur then ["flag.parent_external_decides"] else []) ++
+  (if amb then ["root.case2.ambiguous"] else []) ++
+  (if (referencesComponentInRoot (rootInfo h s cell.k) info).1.isSome then ["root.component_match"] else []) ++
+  (if nm.isEmpty then ["name.empty"] else []) ++
+  (if cell.refPath.map (·.1) == h.root then ["name.same_file_as_root"] else []) ++
+  (if !(isWholeDocumentReference cur) && !isPrefix ['#'] cur then ["ref.remote_element"] else []) ++
+  (if isWholeDocumentReference cur then ["ref.whole_document"] else [])
+
+/-- add<Kind>ToSpec on cell `c`, as a function of the state. Returns isExternal. -/
+def addCore (s : St) (c : Nat) (pext : Bool) : Except Err (Bool × St) :=
   let cell := cellOf h c
   let cur := s.refs[c]!
   if !isExternalRef cur pext then
-    modify fun s => { s with log := .notExternal c pext :: s.log }
-    return false
-  let info : RefInfo := { ref := cur.toList, refPath := cell.refPath.map fun (a, b) => (a.toList, b.toList), coll := cell.k.toList }
-  match defaultName (rootInfo h s cell.k) info with
-  | .panic => throw (.panic "DefaultRefNameResolver")
-  | .fuel => throw .fuel
-  | .name nm amb =>
-    let name := String.ofList nm
-    let early : M Unit := do
-      if pext && cur.startsWith "#/components/" then flag "flag.parent_external_decides"
-      if amb then flag "root.case2.ambiguous"
-      if (referencesComponentInRoot (rootInfo h s cell.k) info).1.isSome then flag "root.component_match"
-      if name == "" then flag "name.empty"
-      if cell.refPath.map (·.1) == h.root then flag "name.same_file_as_root"
-      if !(wholeDocS cur) && !cur.startsWith "#" then flag "ref.remote_element"
-      if wholeDocS cur then flag "ref.whole_document"
-    let newRef := "#/components/" ++ cell.k ++ "/" ++ name
-    let existing := (compsOf s cell.k).find? (·.1 == name)
-    if cell.k == "callbacks" then
-      -- addCallbackToSpec has no existence test: it always (over)writes
-      let same := match existing with | some (_, e) => ccOf h (compVal h s e) == ccOf h cell.val | none => true
-      let s1 := setComp s cell.k name (.fresh cell.val)
-      set { s1 with refs := s1.refs.set! c newRef, ambiguous := s1.ambiguous || amb,
-                    log := (if existing.isSome then Ev.reused c cell.k name same else Ev.added c cell.k name) :: s1.log }
-      early
-      if existing.isSome then flag "add.callback_overwrite" else flag "add.new"
-      return true
-    match existing with
-    | some (_, e) =>
-      let same := ccOf h (compVal h s e) == ccOf h cell.val
-      set { s with refs := s.refs.set! c newRef, ambiguous := s.ambiguous || amb, log := Ev.reused c cell.k name same :: s.log }
-      early
-      flag "add.name_exists"
-      if !same then flag "add.name_exists_other_content"
-      return true
-    | none =>
-      let s1 := setComp s cell.k name (.fresh cell.val)
-      set { s1 with refs := s1.refs.set! c newRef, ambiguous := s1.ambiguous || amb, log := Ev.added c cell.k name :: s1.log }
-      early
-      flag "add.new"
-      return true
+    .ok (false, { s with log := .notExternal c pext :: s.log })
+  else
+    let info : RefInfo := { ref := cur, refPath := cell.refPath, coll := cell.k }
+    match defaultName (rootInfo h s cell.k) info with
+    | .panic => .error (.panic "DefaultRefNameResolver")
+    | .fuel => .error .fuel
+    | .name nm amb =>
+      let br := addBranches h s cell cur nm amb pext info
+      match lookup s cell.k nm with
+      | some e =>
+        let same := ccOf h (compVal h e) == ccOf h cell.val
+        if cell.k == callbacksK then
+          -- addCallbackToSpec has no existence test: it always (over)writes
+          .ok (true, { s with comps := setCompL s.comps cell.k nm (.fresh cell.val), hasComp := true,
+                              refs := s.refs.set! c (mkRef cell.k nm), ambiguous := s.ambiguous || amb,
+                              log := .reused c nm same pext :: s.log,
+                              flags := addFlags s.flags (br ++ ["add.callback_overwrite"]) })
+        else
+          .ok (true, { s with refs := s.refs.set! c (mkRef cell.k nm), ambiguous := s.ambiguous || amb,
+                              log := .reused c nm same pext :: s.log,
+                              flags := addFlags s.flags (br ++ ["add.name_exists"] ++ (if same then [] else ["add.name_exists_other_content"])) })
+      | none =>
+        .ok (true, { s with comps := setCompL s.comps cell.k nm (.fresh cell.val), hasComp := true,
+                            refs := s.refs.set! c (mkRef cell.k nm), ambiguous := s.ambiguous || amb,
+                            log := .added c nm pext :: s.log,
+                            flags := addFlags s.flags (br ++ ["add.new"]) })
 
-def clearRef (c : Nat) : M Unit := modify fun s => { s with refs := s.refs.set! c "" }
+def addToSpec (c : Nat) (pext : Bool) : M Bool := fun s => addCore h s c pext
 
-def isVisitedSchema (v : Int) : M Bool := do
-  let s ← get
-  if s.visS.contains v then flag "visited.schema"; return true
-  set { s with visS := v :: s.visS }
-  return false
+/-- `x.Ref = ""` -/
+def clearRef (c : Nat) : M Unit := fun s => .ok ((), { s with refs := s.refs.set! c [] })
 
-def isVisitedHeader (v : Int) : M Bool := do
-  let s ← get
-  if s.visH.contains v then flag "visited.header"; return true
-  set { s with visH := v :: s.visH }
-  return false
+def isVisitedSchema (v : Int) : M Bool := fun s =>
+  if s.visS.contains v then .ok (true, { s with flags := addFlags s.flags ["visited.schema"] })
+  else .ok (false, { s with visS := v :: s.visS })
+
+def isVisitedHeader (v : Int) : M Bool := fun s =>
+  if s.visH.contains v then .ok (true, { s with flags := addFlags s.flags ["visited.header"] })
+  else .ok (false, { s with visH := v :: s.visH })
+
+/-- the head of the loop body of derefPaths: `doc.isVisitedPathItem(ops)` → none (continue); otherwise the path item is
+marked, `pathIsExternal := isExternalRef(ops.Ref, parentIsExternal)` is returned and `ops.Ref = ""` -/
+def enterPI (p : Nat) (pext : Bool) : M (Option Bool) := fun s =>
+  if s.visP.contains p then .ok (none, { s with flags := addFlags s.flags ["visited.path_item"] })
+  else
+    let pathIsExternal := isExternalRef s.pirefs[p]! pext
+    .ok (some pathIsExternal,
+      { s with visP := p :: s.visP, pirefs := s.pirefs.set! p [],
+               flags := addFlags s.flags ((if pext && !pathIsExternal then ["paths.parent_flag_dropped"] else []) ++
+                                         (if pathIsExternal then ["paths.external_path_item"] else [])) })
 
 mutual
 /-- derefSchema -/
@@ -205,9 +245,10 @@ def derefSchema : Nat → Int → Bool → M Unit
   | 0, _, _ => throw .fuel
   | n + 1, v, pext => do
     tick
-    if v < 0 then return
-    if (← isVisitedSchema v) then return
-    derefSchemaCells n (getVal h v).ch pext
+    if v < 0 then pure ()
+    else
+      let vis ← isVisitedSchema v
+      if vis then pure () else derefSchemaCells n (getVal h v).ch pext
 
 def derefSchemaCells : Nat → List Nat → Bool → M Unit
   | 0, _, _ => throw .fuel
@@ -217,22 +258,22 @@ def derefSchemaCells : Nat → List Nat → Bool → M Unit
     derefSchema n (valOf h c) (isExt || pext)
     derefSchemaCells n cs pext
 
-/-- derefHeaders -/
+/-- derefHeaders (a nil header or header value is skipped after addHeaderToSpec) -/
 def derefHeaders : Nat → List Nat → Bool → M Unit
   | 0, _, _ => throw .fuel
   | _, [], _ => pure ()
   | n + 1, c :: cs, pext => do
     tick
     let isExt ← addToSpec h c pext
-    let v := valOf h c
-    if (← isVisitedHeader v) then
-      derefHeaders n cs pext
+    if valOf h c < 0 then derefHeaders n cs pext
     else
-      if v < 0 then throw (.panic "derefHeaders: h.Value == nil")
-      derefParameter n v (pext || isExt)
-      derefHeaders n cs pext
+      let vis ← isVisitedHeader (valOf h c)
+      if vis then derefHeaders n cs pext
+      else do
+        derefParameter n (valOf h c) (pext || isExt)
+        derefHeaders n cs pext
 
-/-- derefExamples / derefLinks: add only -/
+/-- derefExamples / derefLinks / the securitySchemes loop: add only -/
 def addAll : Nat → List Nat → Bool → M Unit
   | 0, _, _ => throw .fuel
   | _, [], _ => pure ()
@@ -240,18 +281,22 @@ def addAll : Nat → List Nat → Bool → M Unit
     let _ ← addToSpec h c pext
     addAll n cs pext
 
-/-- derefContent -/
+/-- derefContent (nil media types and nil encodings are not in the list) -/
 def derefContent : Nat → List MT → Bool → M Unit
   | 0, _, _ => throw .fuel
   | _, [], _ => pure ()
   | n + 1, mt :: rest, pext => do
     tick
-    if mt.schema ≥ 0 then
+    if mt.schema ≥ 0 then do
       let isExt ← addToSpec h mt.schema.toNat pext
       derefSchema n (valOf h mt.schema.toNat) (isExt || pext)
-    addAll n mt.ex pext
-    derefEnc n mt.enc pext
-    derefContent n rest pext
+      addAll n mt.ex pext
+      derefEnc n mt.enc pext
+      derefContent n rest pext
+    else do
+      addAll n mt.ex pext
+      derefEnc n mt.enc pext
+      derefContent n rest pext
 
 def derefEnc : Nat → List (List Nat) → Bool → M Unit
   | 0, _, _ => throw .fuel
@@ -260,15 +305,17 @@ def derefEnc : Nat → List (List Nat) → Bool → M Unit
     derefHeaders n hs pext
     derefEnc n rest pext
 
-/-- derefParameter (value id of a Parameter or of a Header's embedded Parameter) -/
+/-- derefParameter (value id of a Parameter or of a Header's embedded Parameter); `Examples` are not visited -/
 def derefParameter : Nat → Int → Bool → M Unit
   | 0, _, _ => throw .fuel
   | n + 1, v, pext => do
     tick
-    let p := getVal h v
-    let isExt ← if p.schema ≥ 0 then addToSpec h p.schema.toNat pext else pure false
-    derefContent n p.content pext
-    if p.schema ≥ 0 then derefSchema n (valOf h p.schema.toNat) (isExt || pext)
+    if (getVal h v).schema ≥ 0 then do
+      let isExt ← addToSpec h (getVal h v).schema.toNat pext
+      derefContent n (getVal h v).content pext
+      derefSchema n (valOf h (getVal h v).schema.toNat) (isExt || pext)
+    else
+      derefContent n (getVal h v).content pext
 
 /-- derefResponse over a list (derefResponseBodies) -/
 def derefResponses : Nat → List Nat → Bool → M Unit
@@ -277,13 +324,13 @@ def derefResponses : Nat → List Nat → Bool → M Unit
   | n + 1, c :: cs, pext => do
     tick
     let isExt ← addToSpec h c pext
-    let v := valOf h c
-    if v ≥ 0 then
-      let r := getVal h v
-      derefHeaders n r.headers (isExt || pext)
-      derefContent n r.content (isExt || pext)
-      addAll n r.links (isExt || pext)
-    derefResponses n cs pext
+    if valOf h c ≥ 0 then do
+      derefHeaders n (getVal h (valOf h c)).headers (isExt || pext)
+      derefContent n (getVal h (valOf h c)).content (isExt || pext)
+      addAll n (getVal h (valOf h c)).links (isExt || pext)
+      derefResponses n cs pext
+    else
+      derefResponses n cs pext
 
 /-- the parameter loops of derefPaths -/
 def derefParams : Nat → List Nat → Bool → M Unit
@@ -291,105 +338,126 @@ def derefParams : Nat → List Nat → Bool → M Unit
   | _, [], _ => pure ()
   | n + 1, c :: cs, pext => do
     let isExt ← addToSpec h c pext
-    if valOf h c ≥ 0 then derefParameter n (valOf h c) (pext || isExt)
-    derefParams n cs pext
+    if valOf h c ≥ 0 then do
+      derefParameter n (valOf h c) (pext || isExt)
+      derefParams n cs pext
+    else
+      derefParams n cs pext
 
 def derefCallbacks : Nat → List Nat → Bool → M Unit
   | 0, _, _ => throw .fuel
   | _, [], _ => pure ()
   | n + 1, c :: cs, pext => do
     let isExt ← addToSpec h c pext
-    if valOf h c ≥ 0 then derefPaths n (getVal h (valOf h c)).items (pext || isExt)
-    derefCallbacks n cs pext
+    if valOf h c ≥ 0 then do
+      derefPaths n (getVal h (valOf h c)).items (pext || isExt)
+      derefCallbacks n cs pext
+    else
+      derefCallbacks n cs pext
 
 def derefOps : Nat → List Op → Bool → M Unit
   | 0, _, _ => throw .fuel
   | _, [], _ => pure ()
   | n + 1, op :: rest, pathIsExternal => do
     tick
-    if op.rb ≥ 0 then
+    if op.rb ≥ 0 then do
       let isExt ← addToSpec h op.rb.toNat pathIsExternal
       if valOf h op.rb.toNat ≥ 0 then
         derefContent n (getVal h (valOf h op.rb.toNat)).content (pathIsExternal || isExt)
-    derefCallbacks n op.cbs pathIsExternal
-    derefResponses n op.resps pathIsExternal
-    derefParams n op.params pathIsExternal
-    derefOps n rest pathIsExternal
+      else pure ()
+      derefCallbacks n op.cbs pathIsExternal
+      derefResponses n op.resps pathIsExternal
+      derefParams n op.params pathIsExternal
+      derefOps n rest pathIsExternal
+    else do
+      derefCallbacks n op.cbs pathIsExternal
+      derefResponses n op.resps pathIsExternal
+      derefParams n op.params pathIsExternal
+      derefOps n rest pathIsExternal
 
-/-- derefPaths -/
+/-- derefPaths (nil path items are not in the list) -/
 def derefPaths : Nat → List Nat → Bool → M Unit
   | 0, _, _ => throw .fuel
   | _, [], _ => pure ()
   | n + 1, p :: rest, pext => do
     tick
-    let s ← get
-    let pi := h.pis[p]!
-    let pathIsExternal := isExternalRef s.pirefs[p]! pext
-    set { s with pirefs := s.pirefs.set! p "" }
-    if pext && !pathIsExternal then flag "paths.parent_flag_dropped"
-    if pathIsExternal then flag "paths.external_path_item"
-    derefParams n pi.params pathIsExternal
-    derefOps n pi.ops pathIsExternal
-    derefPaths n rest pext
+    let e ← enterPI p pext
+    match e with
+    | none => derefPaths n rest pext
+    | some pathIsExternal => do
+      derefParams n (h.pis[p]!).params pathIsExternal
+      derefOps n (h.pis[p]!).ops pathIsExternal
+      derefPaths n rest pext
 end
 
-def compCells (k : String) : List Nat := match h.comps.find? (·.1 == k) with | some (_, l) => l.map (·.2) | none => []
+def compCells (k : Str) : List Nat := (h.comps.filter (·.1 == k)).map (·.2.2)
 
-def topSchemas : Nat → List Nat → M Unit
-  | _, [] => pure ()
-  | n, c :: cs => do
+def topSchemas (n : Nat) : List Nat → M Unit
+  | [] => pure ()
+  | c :: cs => do
     let isExt ← addToSpec h c false
     clearRef c
     derefSchema h n (valOf h c) isExt
     topSchemas n cs
 
-def topParameters : Nat → List Nat → M Unit
-  | _, [] => pure ()
-  | n, c :: cs => do
+def topParameters (n : Nat) : List Nat → M Unit
+  | [] => pure ()
+  | c :: cs => do
     let isExt ← addToSpec h c false
-    if valOf h c ≥ 0 then
+    if valOf h c ≥ 0 then do
       clearRef c
       derefParameter h n (valOf h c) isExt
-    topParameters n cs
+      topParameters n cs
+    else
+      topParameters n cs
 
-def topRequestBodies : Nat → List Nat → M Unit
-  | _, [] => pure ()
-  | n, c :: cs => do
+def topRequestBodies (n : Nat) : List Nat → M Unit
+  | [] => pure ()
+  | c :: cs => do
     let isExt ← addToSpec h c false
-    if valOf h c ≥ 0 then
+    if valOf h c ≥ 0 then do
       clearRef c
       derefContent h n (getVal h (valOf h c)).content isExt
-    topRequestBodies n cs
+      topRequestBodies n cs
+    else
+      topRequestBodies n cs
 
-def topCallbacks : Nat → List Nat → M Unit
-  | _, [] => pure ()
-  | n, c :: cs => do
+def topCallbacks (n : Nat) : List Nat → M Unit
+  | [] => pure ()
+  | c :: cs => do
     let isExt ← addToSpec h c false
-    if valOf h c ≥ 0 then
+    if valOf h c ≥ 0 then do
       clearRef c
       derefPaths h n (getVal h (valOf h c)).items isExt
-    topCallbacks n cs
+      topCallbacks n cs
+    else
+      topCallbacks n cs
+
+def topAll (n : Nat) : M Unit := do
+  topSchemas h n (compCells h "schemas".toList)
+  topParameters h n (compCells h "parameters".toList)
+  derefHeaders h n (compCells h "headers".toList) false
+  topRequestBodies h n (compCells h "requestBodies".toList)
+  derefResponses h n (compCells h "responses".toList) false
+  addAll h n (compCells h "securitySchemes".toList) false
+  addAll h n (compCells h "examples".toList) false
+  addAll h n (compCells h "links".toList) false
+  topCallbacks h n (compCells h "callbacks".toList)
 
 /-- InternalizeRefs -/
 def internalizeM (n : Nat) : M Unit := do
-  if h.hasComp then
-    topSchemas h n (compCells h "schemas")
-    topParameters h n (compCells h "parameters")
-    derefHeaders h n (compCells h "headers") false
-    topRequestBodies h n (compCells h "requestBodies")
-    derefResponses h n (compCells h "responses") false
-    addAll h n (compCells h "securitySchemes") false
-    addAll h n (compCells h "examples") false
-    addAll h n (compCells h "links") false
-    topCallbacks h n (compCells h "callbacks")
-  derefPaths h n h.paths false
+  if h.hasComp then do
+    topAll h n
+    derefPaths h n h.paths false
+  else
+    derefPaths h n h.paths false
 
 def budget : Nat := 200 + 16 * (h.cells.size + h.vals.size + h.pis.size)
 
 def initSt : St :=
-  { refs := h.cells.map (·.ref), pirefs := h.pis.map (·.ref),
-    comps := h.comps.map fun (k, l) => (k, l.map fun (n, c) => (n, Comp.cell c)),
-    visS := [], visH := [], steps := budget h, log := [], ambiguous := false, hasComp := h.hasComp, flags := [] }
+  { refs := (h.cells.toList.map (·.ref)).toArray, pirefs := (h.pis.toList.map (·.ref)).toArray,
+    comps := h.comps.map fun (k, n, c) => (k, n, Comp.cell c),
+    visS := [], visH := [], visP := [], steps := budget h, log := [], ambiguous := false, hasComp := h.hasComp, flags := [] }
 
 inductive Outcome
   | done (s : St)
@@ -398,79 +466,128 @@ inductive Outcome
   deriving Repr
 
 def internalize : Outcome :=
-  match (internalizeM h (budget h)).run (initSt h) with
+  match internalizeM h (budget h) (initSt h) with
   | .ok (_, s) => .done s
   | .error (.panic site) => .panic site
   | .error .fuel => .diverge
 
 -- ---------------------------------------------------------------- the property on the final state
 
-/-- what a cell designates in the final document: follow `#/components/<k>/<name>` through the final components -/
-def resolve (s : St) : Nat → String → Int → Option Int
+/-- the text a cell had when the document was loaded -/
+def origRef (c : Nat) : Str := ((h.cells.toList.map (·.ref)).toArray)[c]!
+
+/-- what a reference text designates in the final document: follow `#/components/<k>/<name>` through the final
+components (`own` = the value a cell with an empty text holds itself) -/
+def resolve (s : St) : Nat → Str → Int → Option Int
   | 0, _, _ => none
   | n + 1, ref, own =>
-    if ref == "" then some own
-    else if !ref.startsWith "#/components/" then none
+    if ref.isEmpty then some own
+    else if !hasCompPrefix ref then none
     else
-      match splitSlash (ref.toList.drop 13) with
+      match splitSlash (ref.drop 13) with
       | [k, name] =>
-        (match (compsOf s (String.ofList k)).find? (·.1 == String.ofList name) with
-         | some (_, .cell i) => resolve s n s.refs[i]! (valOf h i)
-         | some (_, .fresh v) => some v
+        (match lookup s k name with
+         | some (.cell i) => resolve s n s.refs[i]! (valOf h i)
+         | some (.fresh v) => some v
          | none => none)
       | _ => none
 
+/-- the text `r` of a position that held value `v` designates content of the same class (chains of length < fuel) -/
+def resolvesTo (s : St) (fuel : Nat) (r : Str) (v : Int) : Bool :=
+  match resolve h s fuel r v with
+  | some w => ccOf h w == ccOf h v
+  | none => false
+
+def intText (r : Str) : Bool := r.isEmpty || hasCompPrefix r
+
 def cellOK (s : St) (c : Nat) : Bool :=
-  let cell := cellOf h c
-  let r := s.refs[c]!
-  if cell.val < 0 then r == cell.ref      -- never resolved by the loader: must be left exactly as it was
-  else
-  (r == "" || r.startsWith "#/components/") &&
-  (match resolve h s (s.comps.length * 0 + 64) r cell.val with
-   | some v => ccOf h v == ccOf h cell.val
-   | none => false)
+  -- never resolved by the loader: must be left exactly as it was, and must not point outside the document
+  if (cellOf h c).val < 0 then s.refs[c]! == origRef h c && intText (origRef h c)
+  else intText s.refs[c]! && resolvesTo h s 64 s.refs[c]! (cellOf h c).val
 
-def namesOK (s : St) : Bool := s.comps.all fun (_, l) => l.all fun (n, _) => n != ""
+def namesOK (s : St) : Bool := s.comps.all fun e => !e.2.1.isEmpty
 
-def specB (s : St) : Bool := (List.range h.cells.size).all (cellOK h s) && (namesOK s || !h.validBefore)
+/-- every path item reference is inlined -/
+def pisOK (s : St) : Bool := (List.range h.pis.size).all fun p => s.pirefs[p]!.isEmpty
+
+/-- every discriminator mapping entry still names the alternative it named: `schema.visitXOFOperations` selects the
+oneOf item whose `$ref` text EQUALS the mapping value -/
+def mapOK (s : St) : Bool := h.vals.toList.all fun v => v.dmap.all fun e => s.refs[e.2]! == e.1
+
+/-- in the final document path item `p` is written out in full and leads, through callbacks that are written out in
+full, back to a path item on `stack`: the document is an infinite tree -/
+def cycReach (s : St) : Nat → List Nat → Nat → Bool
+  | 0, _, _ => true
+  | n + 1, stack, p =>
+    if stack.contains p then true
+    else if !(s.pirefs[p]!).isEmpty then false
+    else (h.pis[p]!).ops.any fun op => op.cbs.any fun cb =>
+      (s.refs[cb]!).isEmpty && valOf h cb ≥ 0 && (getVal h (valOf h cb)).items.any fun q => cycReach s n (p :: stack) q
+
+/-- the final document is a finite tree (it can be serialised) -/
+def finiteB (s : St) : Bool := !(List.range h.pis.size).any fun p => cycReach h s (h.pis.size + 1) [] p
+
+def specB (s : St) : Bool :=
+  (List.range h.cells.size).all (cellOK h s) && pisOK h s && mapOK h s && finiteB h s && (namesOK s || !h.validBefore)
 
 -- ---------------------------------------------------------------- exclusion predicates (known-finding classes)
 
-def nonClearingKinds : List String := ["headers", "responses", "securitySchemes", "examples", "links"]
-def wholeDoc (ref : String) : Bool := ref != "" && !ref.contains '#'
-
-/-- #17 and its variants: an external reference is given a name under which a component with OTHER content exists -/
+/-- F-C16-1 (#17 and its variants): an external reference is given a name under which a component with OTHER content
+exists -/
 def NameCollision (s : St) : Bool :=
-  s.log.any fun e => match e with | .reused _ _ _ same => !same | _ => false
+  s.log.any fun e => match e with | .reused _ _ same _ => !same | _ => false
 
-/-- #41 / #13: a reference in a position the loader does not walk (no resolved value, no RefPath) -/
-def UnwalkedRef : Bool := h.cells.any fun c => c.ref != "" && (c.val < 0 || c.refPath.isNone)
+/-- F-C16-3: a component entry of the final document that is an original ref cell of the root (not a value put there by
+add*ToSpec) and whose own text does not lead to its own value — `X: {$ref: #/components/responses/X}` when the root
+component was a whole-document reference of a collection whose top level is not dereferenced -/
+def SelfRefComponent (s : St) : Bool :=
+  s.comps.any fun e => match e.2.2 with
+    | .cell i => !resolvesTo h s 63 s.refs[i]! (valOf h i)
+    | .fresh _ => false
 
-/-- a root component of a collection whose top level is not dereferenced, given as a whole-document reference:
-    the resolver finds the component itself in the root and the reference becomes a reference to itself -/
-def SelfRefComponent : Bool :=
-  nonClearingKinds.any fun k => (compCells h k).any fun c => wholeDoc (cellOf h c).ref
+/-- the cells InternalizeRefs never visits: Examples of parameters and headers -/
+def pexCells : List Nat := h.vals.toList.flatMap (·.pex)
 
-/-- the loader records the REFERRING document as RefPath of a whole-document link/example/securityScheme reference -/
-def WrongRefPath : Bool :=
-  h.cells.any fun c => (c.k == "links" || c.k == "examples" || c.k == "securitySchemes") && wholeDoc c.ref
+/-- a cell with a non-empty text that internalisation left exactly as loaded and that is not right in the final document -/
+def unchangedBad (s : St) (c : Nat) : Bool :=
+  s.refs[c]! == origRef h c && !(origRef h c).isEmpty && !cellOK h s c
 
-/-- a cell whose `#/components/…` text was never rewritten although in the root document that text designates
-    nothing, or something else (the value lives in another document and was reached without the external flag) -/
+/-- F-C16-5: a `#/components/…` text of a VISITED position was never rewritten although in the root document that text
+designates nothing, or something else (the value lives in another document and was reached without the external flag) -/
 def StaleInternalRef (s : St) : Bool :=
-  (List.range h.cells.size).any fun c =>
-    let r := s.refs[c]!
-    r == (cellOf h c).ref && r.startsWith "#/components/" && !cellOK h s c
+  (List.range h.cells.size).any fun c => !(pexCells h).contains c && unchangedBad h s c
 
-/-- path item → operation callback → callback value → path item cycle (the descent has no visited set for these) -/
-def cbReach : Nat → List Nat → Nat → Bool
-  | 0, _, _ => true
-  | n + 1, stack, p =>
-    if stack.contains p then true else
-    (h.pis[p]!).ops.any fun op => op.cbs.any fun cb =>
-      let v := valOf h cb
-      v ≥ 0 && (getVal h v).items.any fun q => cbReach n (p :: stack) q
+/-- F-C16-7: a reference under `examples` of a parameter or header (resolved by the loader since cbb0d05) is not visited by
+derefParameter: an external one stays external, one inside an imported document keeps pointing into that document -/
+def UnwalkedExample (s : St) : Bool :=
+  (pexCells h).any fun c => unchangedBad h s c
 
-def CallbackCycle : Bool := (List.range h.pis.size).any fun p => cbReach h (h.pis.size + 1) [] p
+/-- F-C16-8: a oneOf alternative named by a discriminator mapping was rewritten, the mapping text was not: validation
+with that schema no longer finds the alternative -/
+def DiscriminatorMapping (s : St) : Bool := !mapOK h s
+
+/-- F-C16-9: every `$ref` of a path item is cleared ("inline full operations"), also one that points into the document's
+own paths section and closes a cycle through a callback: the result is an infinite tree, MarshalJSON overflows the stack -/
+def InlinedCycle (s : St) : Bool := !finiteB h s
+
+/-- F-C16-10: a reference the loader left without value or without RefPath although the document loaded (no POSITION is
+left unvisited since cbb0d05; what remains are the loader's text-keyed visited table and foreign-context walks, C02) -/
+def Unresolved : Bool := h.cells.toList.any fun c => !c.ref.isEmpty && (c.val < 0 || c.refPath.isNone)
+
+/-- a reachable path item the descent did not inline -/
+def PathItemLeft (s : St) : Bool := !pisOK h s
+
+def EmptyName (s : St) : Bool := !namesOK s && h.validBefore
+
+/-- collection names contain no slash (they are the nine fixed names) -/
+def kindsPlain : Bool := h.cells.toList.all fun c => !c.k.contains '/'
+
+/-- the hypotheses of `spec_holds_partial` (Props/C16.lean): none of the exclusion predicates holds -/
+def hypsB (s : St) : Bool :=
+  kindsPlain h && !NameCollision s && !SelfRefComponent h s && !StaleInternalRef h s && !UnwalkedExample h s &&
+  !DiscriminatorMapping h s && !InlinedCycle h s && !Unresolved h && !PathItemLeft h s && !EmptyName h s
+
+/-- a predicate on the final state of a finished run (false when the run panics or runs out of fuel) -/
+def doneB (p : St → Bool) : Bool := match internalize h with | .done s => p s | _ => false
 
 end KinModel.Internalize
